@@ -5,7 +5,7 @@ import "fmt"
 // family optimization (C19)
 func genOptimization(r *rng, index int) *Spec {
 	semi := index%5 != 4
-	mode := (index / 5) % 5 // 0 random, 1 crowded registry, 2 failover, 3 fault windows, 4 switchover with failing restore
+	mode := (index / 5) % 6 // 5 batch restore with one failing host; 0 random, 1 crowded registry, 2 failover, 3 fault windows, 4 switchover with failing restore
 	sp := baseSpec(r, shapeOpt{minHA: 3, maxHA: 4, cascade: 0.3, semiSync: &semi})
 	c := &sp.Cfg
 	ha := sp.haNames()
@@ -54,12 +54,17 @@ func genOptimization(r *rng, index int) *Spec {
 		}
 		hs.Init = in
 		lv := lagVals[r.intn(len(lagVals))]
+		if mode == 5 {
+			// everything registered, relaxed and converged (or lost): the first sync restores them in one batch
+			in.FlushLog, in.SyncBinlog = 2, 1000
+			lv = []int64{0, low - 1, 0, -2}[r.intn(4)]
+		}
 		if mode == 1 || mode == 4 {
 			lv = []int64{high, high + 1, 5000, 5000, low + 1}[r.intn(5)]
 		}
 		sp.Timeline = append(sp.Timeline, TLEvent{AtMs: 100, Kind: "lag", Host: h, N: lv})
 		script = append(script, fmt.Sprintf("%s=%d", h, lv))
-		if r.chance(0.5) || mode == 1 || (mode == 4 && r.chance(0.6)) {
+		if r.chance(0.5) || mode == 1 || mode == 5 || (mode == 4 && r.chance(0.6)) {
 			st := []string{`{"status":""}`, `{"status":"enabled"}`}[r.intn(2)]
 			sp.Timeline = append(sp.Timeline, TLEvent{AtMs: 60, Kind: "zk_set", Arg: "/test/optimization_nodes/" + h, Arg2: st})
 			script = append(script, "reg("+h+")")
@@ -76,6 +81,13 @@ func genOptimization(r *rng, index int) *Spec {
 	}
 	T := int64(9000)
 	nEv := r.rangeInt(2, 7)
+	if mode == 5 {
+		h := repl[r.intn(len(repl))]
+		pre := []string{"SET GLOBAL sync_binlog", "SET GLOBAL innodb_flush_log_at_trx_commit"}[r.intn(2)]
+		sp.StmtFail = append(sp.StmtFail, StmtFail{Host: h, Prefix: pre, Errno: 1105, FromMs: 0, ToMs: int64(r.pickInt(4000, 9000, 15000))})
+		script = append(script, fmt.Sprintf("restore_fails(%s)", h))
+		nEv = r.intn(3)
+	}
 	if mode == 2 {
 		// automatic failover with registered / relaxed candidates
 		c.Failover = true
